@@ -125,6 +125,8 @@ func driveC09Stores(t *testing.T, out *vEmitter) {
 					o.Cookie.Refresh = refresh
 					o.Providers[0].OIDCConfig.InsecureSkipNonce = true
 				}})
+				// somebody starts a login at this proxy before any of the sessions below is saved or checked
+				e.newBrowser("https://app.example.com").start("/")
 				es := int64(exp / time.Second)
 				ages := []int64{0, 5, es - 3, es - 2, es - 1, es + 1, es + 2, es + 3, es * 2, -295, -298, -302, -305, -600}
 				for _, age := range ages {
@@ -157,6 +159,34 @@ func driveC09Stores(t *testing.T, out *vEmitter) {
 							}
 						}
 						e.redis.mu.Unlock()
+					}
+					// the same holds when the session is saved again by a request that presents its cookie / ticket
+					if age == 0 || age == 5 {
+						rw2 := httptest.NewRecorder()
+						rq2 := httptest.NewRequest("GET", "https://app.example.com/", nil)
+						rq2.Header.Set("Cookie", b.cookieHeader("/"))
+						if err := e.p.sessionStore.Save(rw2, rq2, s); err != nil {
+							t.Fatal(err)
+						}
+						cs2 := (&http.Response{Header: rw2.Header()}).Cookies()
+						b.jar.SetCookies(b.origin, cs2)
+						for _, c := range cs2 {
+							if c.MaxAge >= 0 && c.MaxAge != int(es) {
+								out.Violation("lifetime/max-age", "the Max-Age given to the browser is not the configured lifetime",
+									map[string]interface{}{"max_age": c.MaxAge, "expire_s": es, "redis": redis, "resave": true})
+							}
+						}
+						if redis {
+							e.redis.mu.Lock()
+							for k, ent := range e.redis.data {
+								if ent.ttl != exp {
+									out.Violation("lifetime/store-ttl", "the server-side entry is not stored with the configured lifetime",
+										map[string]interface{}{"key": k, "ttl": ent.ttl.String(), "expire": exp.String(), "resave": true})
+								}
+							}
+							e.redis.mu.Unlock()
+						}
+						out.Stat("resave_checks", 1)
 					}
 					sent := b.cookieHeader("/")
 					var pcs []vNV
